@@ -45,13 +45,10 @@ def _specs(tier: str):
     if tier == 'thorough':
         rows += [
             ('chain3', [('P1', shapes['chain3'])], 1, 1),
-            ('fanout', [('P1', shapes['fanout'])], 1, 1),
-            ('custom', [('P1', [E(A(a, 0, 'x'), b), E(A(a), c)])], 1, 1),
             ('customopt', [('P1', shapes['customopt'])], 1, 1),
             ('subfailopt', [('P1', [E(A(a, 0, 'submit-failed', True), b),
                                     E(A(a, 0, 'succeeded', True), c)])],
              1, 1),
-            ('prev', [('P1', [E(A(a, -1), a), E(A(a), b)])], 2, 1),
             ('chain2-x2', [('P1', shapes['chain2'])], 1, 2),
         ]
     out = []
@@ -95,7 +92,9 @@ def alphabet(spec, tier):
         custom = sorted(spec.get('tasks', {}).get(t, {}).get('outputs', {}))
         outs = [None, ['succeeded'], ['started'], ['submitted'], ['failed']]
         outs += [[c] for c in custom]
-        if tier == 'thorough':
+        if spec.get('budget', 1) > 1:
+            outs = [None, ['succeeded'], ['started'], ['failed']]
+        elif tier == 'thorough':
             outs += [['expired'], ['submit-failed']]
             outs += [[c, 'succeeded'] for c in custom]
             outs += [['started', 'failed']]
